@@ -50,18 +50,6 @@ def _bundles(events):
   return [ev for ev in events if isinstance(ev.get("a"), list)]
 
 
-def c01_bundle_mixes_summary_regrouping_with_other_actions(events, violation):
-  """F-s: some bundle of the history combines summary (re)grouping with other user actions."""
-  if violation.get("oracle") not in ("undo-raised", "undo-state", "unwind-to-start", "redo-raised", "redo-state"):
-    return False
-  for ev in _bundles(events):
-    acts = ev["a"]
-    if len(acts) > 1 and any(a[0] in SUMMARY_ACTIONS or (a[0] == "CreateViewSection" and a[4] is not None)
-                             for a in acts):
-      return True
-  return False
-
-
 def _formula_writes(events):
   for ev in _bundles(events):
     for a in ev["a"]:
